@@ -1108,7 +1108,21 @@ type Guard struct {
 // guardRe builds a guard from a regexp over atom strings.
 func guardRe(name, re string) Guard {
 	rx := regexp.MustCompile(re)
-	return Guard{Name: name, Match: func(w *World, f *ssa.Function, a Atom) bool { return rx.MatchString(w.atomStr(a)) }}
+	return Guard{Name: name, Match: func(w *World, f *ssa.Function, a Atom) bool {
+		if rx.MatchString(w.atomStr(a)) {
+			return true
+		}
+		// bytes.Equal is symmetric: the pattern may list the operands in the other order
+		if a.Kind == "true" || a.Kind == "false" {
+			if c, ok := stripConv(a.V).(*ssa.Call); ok {
+				if d, okd := describeCallee(c); okd && d.Pkg == "bytes" && d.Name == "Equal" && len(c.Call.Args) == 2 {
+					sw := a.Kind + "(bytes.Equal(" + w.expr(c.Call.Args[1]) + ", " + w.expr(c.Call.Args[0]) + "))"
+					return rx.MatchString(sw)
+				}
+			}
+		}
+		return false
+	}}
 }
 
 // guardCallOK: "call to spec succeeded" — nil error result, or true bool result.
@@ -1164,6 +1178,18 @@ func (ge *guardEnv) passEdges(f *ssa.Function, g Guard, depth int) map[Edge]bool
 			if all && any {
 				edges[ea.E] = true
 				continue
+			}
+		}
+		// !pred(x) where pred is an in-module predicate: the false edge establishes g if every way pred
+		// can return false does
+		if depth > 0 && ea.A.Kind == "false" {
+			if c := atomCall(ea.A); c != nil {
+				if h := staticCallee(c); h != nil && h.Blocks != nil && strings.HasPrefix(pkgPathOf(h), modPath) && isPredicate(h) {
+					if ge.predicateEnsures(c, h, g, false, depth-1) {
+						edges[ea.E] = true
+						continue
+					}
+				}
 			}
 		}
 		if depth > 0 && (ea.A.Kind == "nil" || ea.A.Kind == "true") {
@@ -1245,6 +1271,86 @@ func (ge *guardEnv) guardedLocalX(f *ssa.Function, target ssa.Instruction, g Gua
 	}
 	r, p := reachFromEntry(f, edges, kill, target)
 	return !r, p
+}
+
+func isPredicate(h *ssa.Function) bool {
+	res := h.Signature.Results()
+	if res.Len() != 1 {
+		return false
+	}
+	b, ok := res.At(0).Type().Underlying().(*types.Basic)
+	return ok && b.Kind() == types.Bool
+}
+
+// predicateEnsures: whenever the predicate h (called at `call`) returns `want`, g holds — decided over the
+// shape of the returned value: constants need g on all paths to them, `a && b` / `a || b` phis are followed
+// per edge, a returned comparison is itself the atom.
+func (ge *guardEnv) predicateEnsures(call ssa.CallInstruction, h *ssa.Function, g Guard, want bool, depth int) bool {
+	args := call.Common().Args
+	sub := map[ssa.Value]string{}
+	if len(args) == len(h.Params) {
+		for i, p := range h.Params {
+			sub[p] = ge.w.expr(args[i])
+		}
+	}
+	saved := ge.w.subst
+	ge.w.subst = sub
+	defer func() { ge.w.subst = saved }()
+	var check func(v ssa.Value, at ssa.Instruction, pred, blk *ssa.BasicBlock, want bool, d int) bool
+	check = func(v ssa.Value, at ssa.Instruction, pred, blk *ssa.BasicBlock, want bool, d int) bool {
+		if d > 6 {
+			return false
+		}
+		locally := func() bool {
+			if pred != nil {
+				ok, _ := ge.guardedEdge(h, pred, blk, g, depth)
+				return ok
+			}
+			ok, _ := ge.guardedLocal(h, at, g, depth)
+			return ok
+		}
+		switch x := v.(type) {
+		case *ssa.Const:
+			if b, ok := boolConst(x); ok && b != want {
+				return true
+			}
+			return locally()
+		case *ssa.Phi:
+			for i, e := range x.Edges {
+				p := x.Block().Preds[i]
+				if !check(e, p.Instrs[len(p.Instrs)-1], p, x.Block(), want, d+1) {
+					return false
+				}
+			}
+			return true
+		case *ssa.UnOp:
+			if x.Op == token.NOT {
+				return check(x.X, at, pred, blk, !want, d+1)
+			}
+		}
+		if g.Match(ge.w, h, normCond(v, want)) {
+			return true
+		}
+		if c := valueCall(v); c != nil && depth > 0 {
+			if h2 := staticCallee(c); h2 != nil && h2.Blocks != nil && h2 != h && strings.HasPrefix(pkgPathOf(h2), modPath) && isPredicate(h2) {
+				if ge.predicateEnsures(c, h2, g, want, depth-1) {
+					return true
+				}
+			}
+		}
+		return locally()
+	}
+	for _, b := range h.Blocks {
+		if len(b.Instrs) == 0 {
+			continue
+		}
+		if ret, ok := b.Instrs[len(b.Instrs)-1].(*ssa.Return); ok {
+			if !check(ret.Results[0], ret, nil, nil, want, 0) {
+				return false
+			}
+		}
+	}
+	return true
 }
 
 // guardedEdge: every path from entry that takes the edge p→s crosses a pass edge of g (the edge itself counts).
